@@ -29,6 +29,8 @@ type Transport struct {
 	Conns []ConnCfg
 	// Hooks for receive-pack (optional).
 	Hooks transport.ReceivePackHooks
+	// Drv, when non-nil, is set on every stream (scheduled configuration).
+	Drv Parker
 
 	mu      sync.Mutex
 	n       int
@@ -57,6 +59,7 @@ func (t *Transport) Connect(ctx context.Context, req *transport.Request) (transp
 	}
 	c2s := NewStream(fmt.Sprintf("c2s#%d", k), cfg.C2S)
 	s2c := NewStream(fmt.Sprintf("s2c#%d", k), cfg.S2C)
+	c2s.Drv, s2c.Drv = t.Drv, t.Drv
 	t.Streams = append(t.Streams, c2s, s2c)
 	t.SrvErrs = append(t.SrvErrs, nil)
 	t.mu.Unlock()
